@@ -405,6 +405,16 @@ pub async fn gen_round(trace: &mut String, rng: &mut Prng, counts: &mut std::col
     if rng.chance(1, 3) {
         seeds.push("10.9.9.9:9".to_string());
     }
+    // one case in four: a host-name seed that does not resolve next to the literal ones, and more than
+    // two DNS refresh periods (60 s each) before the observed round: the literal seeds must still
+    // be seeds
+    let dns_mode = !long_dead && rng.chance(1, 4);
+    if dns_mode {
+        seeds.push("no-such-host.invalid:7777".to_string());
+        if !seeds.iter().any(|s| s.parse::<SocketAddr>().map(|a| a != self_addr).unwrap_or(false)) {
+            seeds.push("10.9.9.8:9".to_string());
+        }
+    }
     let config = ChitchatConfig {
         chitchat_id: id.clone(),
         cluster_id: "c".to_string(),
@@ -462,6 +472,24 @@ pub async fn gen_round(trace: &mut String, rng: &mut Prng, counts: &mut std::col
             settle().await;
         }
         *counts.entry("round_long_dead".to_string()).or_insert(0) += 1;
+    }
+    if dns_mode {
+        for round in 4..=130u64 {
+            let entries: Vec<(WId, u64, u64, u64)> =
+                (0..n_peers).filter(|i| keeps[*i as usize]).map(|i| (wid_of_peer(i), round, 0, 0)).collect();
+            if !entries.is_empty() {
+                let mut bytes = Vec::new();
+                put_header(&mut bytes, 0);
+                put_digest(&mut bytes, &entries);
+                crate::util::put_str(&mut bytes, b"c");
+                shared.events.lock().unwrap().push_back(Ev::Msg(peer_addr(0), bytes));
+                shared.notify.notify_one();
+                settle().await;
+            }
+            tokio::time::advance(interval).await;
+            settle().await;
+        }
+        *counts.entry("round_dns_refreshes".to_string()).or_insert(0) += 1;
     }
     // the pools, as the property defines them, from the public API
     let (peers, live, dead): (Vec<SocketAddr>, Vec<SocketAddr>, Vec<SocketAddr>) = {
